@@ -89,12 +89,15 @@ impl Naming {
             2 => Slot::named(&format!("a{:07}", s)),
             // textual names, sorted against the numbers
             3 => Slot::named(&format!("z{:07}", 9_000_000 - s)),
-            // mixed: even numeric, odd textual
+            // mixed: even numeric, odd textual - and the textual names are non-canonical spellings of the
+            // neighbouring numbers ("03" next to $3, "+5" next to $5): distinct names, hence distinct slots
             4 => {
                 if s % 2 == 0 {
                     Slot::numeric(s + 3)
+                } else if s % 4 == 1 {
+                    Slot::named(&format!("0{}", s + 2))
                 } else {
-                    Slot::named(&format!("m{}", s))
+                    Slot::named(&format!("+{}", s + 2))
                 }
             }
             // scrambled numeric
